@@ -909,6 +909,13 @@ func ruleNilNil(c *Ctx, u *Universe, rule string, rels []string) {
 				if isNilConst(retValue(ret, 0)) && isNilConst(retValue(ret, 1)) {
 					bad = u.pos(ret.Pos())
 				}
+				// a slot getter that answers nil when nothing was stored (return slot, receiver) is not handed on as a
+				// value unless a nil test stands in between
+				if ev := retValue(ret, 1); isNilConst(ev) || !provablyNonNilError(ev) {
+					if maybeNilSlot(u, f, retValue(ret, 0), bpoint{b: b}, 0) && normalReturn(f, ret, nilTests(f)) {
+						bad = u.pos(ret.Pos()) + " (the possibly-empty slot read by a Get…Value call is returned as the value)"
+					}
+				}
 			}
 			R.check(bad == "", rule, u.fname(f), u.pos(f.Pos()), "never returns (nil, nil)", "returns a nil element together with a nil error at "+bad+": the caller dereferences the nil element (String(), GetProperty …) and the process crashes")
 		}
@@ -945,6 +952,9 @@ func checkC10(c *Ctx) {
 	// leaves complete [kind,start,end) triples (the fill loop indexes fmtStack[i+1], [i+2] and the argument list)
 	borrowRule(c, "C12", "C12.sync", "C10.dictsync")
 	borrowRule(c, "C14", "C14.tmpl", "C10.tmpl")
+
+	// ---- C10.nilfield: nil-able pointer fields are dereferenced only behind a nil test
+	ruleNilFields(c, u, "C10.nilfield", func(file string) bool { return !strings.HasPrefix(file, "pkg/syntax/") })
 
 	// ---- C10.nilrecv
 	for _, getter := range []string{"pkg/runtime.VM.getCurrentScope", "pkg/runtime.VM.getCurrentCallFrame"} {
@@ -1222,4 +1232,46 @@ func normExpr(info *types.Info, e ast.Expr) string {
 		return e
 	}
 	return types.ExprString(cp(e))
+}
+
+// maybeNilSlot: v can be the nil answer of VM.GetReturnValue / VM.GetThisValue at point at (no nil test of that very
+// result lies on the way)
+func maybeNilSlot(u *Universe, f *ssa.Function, v ssa.Value, at bpoint, depth int) bool {
+	if depth > 4 {
+		return false
+	}
+	switch x := v.(type) {
+	case *ssa.Call:
+		n := u.callName(x)
+		if n != "pkg/runtime.VM.GetReturnValue" && n != "pkg/runtime.VM.GetThisValue" {
+			return false
+		}
+		for _, t := range nilTests(f) {
+			if t.X != ssa.Value(x) {
+				continue
+			}
+			if edgeDominates(t.If.Block(), t.NotNil, at.b) || (at.via != nil && t.If.Block() == at.b && t.NotNil == at.via) {
+				return false
+			}
+		}
+		return true
+	case *ssa.Phi:
+		for i, e := range x.Edges {
+			if maybeNilSlot(u, f, e, bpoint{x.Block().Preds[i], x.Block()}, depth+1) {
+				return true
+			}
+		}
+	case *ssa.UnOp:
+		// defer-spilled result cell: look at the stores
+		if a, ok := x.X.(*ssa.Alloc); ok && x.Op == token.MUL {
+			for _, r := range *a.Referrers() {
+				if st, ok := r.(*ssa.Store); ok && st.Addr == ssa.Value(a) {
+					if maybeNilSlot(u, f, st.Val, bpoint{b: st.Block()}, depth+1) {
+						return true
+					}
+				}
+			}
+		}
+	}
+	return false
 }
